@@ -28,6 +28,11 @@ CLAIMED = {
 }
 
 CLAIMED.update({
+  "C08": ("exploration",
+          "deterministic simulation: seeded fits from far and hostile starts/values with non-finite model output injected at chosen calls, under a hang watchdog and a logical step bound, in both build profiles",
+          "build -> set_params -> fit / fit_with_statistics -> confidence band under two regimes: 'far' (starts over twelve decades with random signs; the real optimizer walks into overflow and badly scaled bases on its own) and 'hostile' (IEEE special values in x, y, w, alpha, epsilon; degenerate shapes; non-finite values injected into model or closure output once / in bursts / forever). Single-threaded worker processes; a watchdog ends a worker whose model-seam heartbeat stalls and the hang must reproduce in isolation before it is reported. Checked: no operation panics, none hangs, model calls per fit stay within the logical bound derived from patience*(P+1), Ok results expose finite values (an empty cache is the permitted rejected state). Both build profiles. Sampling, not proof.",
+          "Trusted: the watchdog's wall clock (only to end a run that stopped making progress). Non-termination shorter than the limit and cost blow-ups below the step bound are invisible.",
+          "5 (C08), 3.6"),
   "C12": ("fault_enumeration",
           "deterministic simulation with fault injection: every model-call position inside the statistics computation gets a failure, in both build profiles; failing and under-determined fits generated around the N = M+P boundary",
           "fit_with_statistics over seeded scenarios with N-(M+P) in {-3..+3, large}, weights on/off, f32/f64, both build profiles (overflow checks on and off, separate worker binaries). A tap twin locates the optimizer's last model call; every model call after it (P derivative calls and two evaluations) is re-executed with a transient and a persistent failure. Checked: never panics; N <= M+P => Err; failed fit => Err; model failure inside the statistics => Err; Err carries the problem; for Ok: N > M+P, the reported weighted residuals are W(y - Phi_ref(alpha_hat) c_hat) of the final state within a forward-error bound, reduced chi2 = ||r||^2/(N-M-P), standard error = sqrt(chi2). The three Err clauses and the residual consistency are what the simulation decides; the chi2/sigma arithmetic rides along.",
